@@ -590,6 +590,44 @@ def rule_r7(facts, col):
                "no bit-fixing step that returns a repaired buffer: nothing to relate")
 
 
+def rule_r9(facts, col, rule_id="C13.R9"):
+    """the size limit is looked at for every collected bit: in the deframer's state update (helpers inlined), every `push` of
+    a bit into the frame accumulator lies behind the size comparison (`bits.len()` against `max_size`), i.e. on the side of
+    that test that goes on collecting.  If only some appends are checked (say, only zeros), the abandon-and-resync step - which
+    drops the bit that tripped it - can fire on the first bit of the closing flag instead of inside the over-long frame, and
+    the next frame, sharing that flag, is lost."""
+    n = 0
+    for body0 in facts.bodies:
+        if body0.self_adt != DEFRAMER or body0.name != "update_state":
+            continue
+        from ..inline import inline_body
+        body, _ = inline_body(facts, body0, lambda hb: hb.self_adt == DEFRAMER or hb.file == "src/hdlc_deframer.rs", depth=2)
+        for bb, t in body.calls():
+            if t["f"].get("name") != "push" or not (t["f"].get("q") or "").startswith("std::vec::Vec") or len(t["args"]) < 2:
+                continue
+            aty = (t.get("argtys") or [""])[0]
+            if "Vec<u8>" not in aty:
+                continue
+            if t.get("sp", {}).get("x"):
+                continue      # inside a macro expansion (logging)
+            n += 1
+            key = "%s:push#%d" % (body0.q, n)
+            ok = False
+            for f in facts_at(body, bb):
+                if f[0] in ("Gt", "Ge", "Lt", "Le"):
+                    sides = [f[1], f[2]]
+                    if any(_has(x, lambda y: y.k == "field" and y.name == "max_size") for x in sides) and any(_is_len_of_bits(x) for x in sides):
+                        ok = True
+            if ok:
+                col.ok(rule_id, key, body.where(bb), "append behind the size comparison")
+            else:
+                col.bad(rule_id, key, body.where(bb),
+                        "a bit is appended to the frame accumulator on a path that has not compared its length with max_size: the "
+                        "over-length check no longer runs on every collected bit, so it can trip on the first bit of the closing flag "
+                        "(swallowing the flag the next frame shares) instead of inside the over-long frame", {})
+    return n
+
+
 def run(ctx):
     facts = ctx.facts("default")
     ctx.anchor("C13", DEFRAMER in facts.adts, "hdlc_deframer::HdlcDeframer")
@@ -602,6 +640,8 @@ def run(ctx):
     from . import c17
     c17.rule_r3(facts, ctx, rule_id="C13.R8", scope=lambda b: b.self_adt == DEFRAMER)
     ctx.floor("C13.R8", 1, "HdlcDeframer::work consumes its whole window (same rule as C17.R3)")
+    rule_r9(facts, ctx)
+    ctx.floor("C13.R9", 1, "bit appends in the Synced state (2 today)")
     rule_r7(facts, ctx)
     ctx.floor("C13.R7", 1, "push downstream of find_right_crc (or the statement that no repair step returns a buffer)")
     rule_r5(facts, ctx)
